@@ -39,6 +39,13 @@ def write(case, sc, pps, meta, path):
         warnings.simplefilter("ignore")
         w = CommonRoadFileWriter(sc, pps, meta["author"], meta["affiliation"], meta["source"], meta["tags"],
                                  meta["location"], file_format=fmt, **kw)
+        if case.get("twice"):
+            # the file judged is the SECOND one this writer object produces (the first goes to another name)
+            first = path + ".first"
+            if case["twice"] == "scenario":
+                w.write_scenario_to_file(first, OverwriteExistingFile.ALWAYS)
+            else:
+                w.write_to_file(first, OverwriteExistingFile.ALWAYS)
         w.write_to_file(path, OverwriteExistingFile.ALWAYS)
 
 
